@@ -1,4 +1,4 @@
-(* GENERATED from Tree/InvProofsMove.v by work/c03gen/gen.py: the same proof over NoOrphanP (no RootsOnly), see Tree/InvEBase.v *)
+(* GENERATED from Tree/InvProofsMove.v by tools/c03_gen_invE.py: the same proof over NoOrphanP (no RootsOnly), see Tree/InvEBase.v *)
 (* Tree/InvProofsMove.v — C03 proofs: move_element_position / _local / _full and move_element_here(_at). *)
 From Coq Require Import PeanoNat Arith.
 From AV Require Import Base.Bytes Base.Outcome Hash.HashModel Tree.Heap Tree.Ops Tree.Script Tree.Inv
